@@ -20,6 +20,7 @@ package gkvlite
 //@   ensures result == emptyLoc(p)
 
 //@ func (*ploc).write
+//@   overflow
 //@   props C14 C02
 //@   from: C14 anchors.state "node record: 3 x (i64 offset, u32 length)"
 //@   requires 0 <= pos && pos + 12 <= len(b)
@@ -31,6 +32,7 @@ package gkvlite
 //@   ensures [C14] rest-unchanged: forall i :: 0 <= i && i < len(b) && !(pos <= i && i < pos+12) ==> b[i] == old(b[i])
 
 //@ func (*ploc).read
+//@   overflow
 //@   props C14 C02
 //@   requires p != nil && 0 <= pos && pos + 12 <= len(b)
 //@   modifies p.Offset, p.Length
@@ -312,8 +314,10 @@ package gkvlite
 // node.go: persisting and loading node records
 
 //@ func (*nodeLoc).write
+//@   overflow
 //@   props C14 C02 C03 C09 C13 C07
 //@   requires [C05,C18] nolocks: locks == emptyLocks()
+//@   relies [C07] file-size-fits: o.size <= 1152921504606846976
 //@   from: C14 node record layout; C02 P3 (offset/length/size bookkeeping exact); C09 W1 (append only); C07 E3 (a failed write changes nothing)
 //@   requires nloc != nil && o != nil && o.file != nil && o.size >= 0
 //@   requires [C02,C14] P2-children-first: nloc.node != nil && emptyLoc(nloc.loc) ==> (!emptyLoc(nloc.node.left.loc) || nloc.node.left.node == nil) && (!emptyLoc(nloc.node.right.loc) || nloc.node.right.node == nil)
@@ -469,8 +473,10 @@ package gkvlite
 //@ global emptyItemLoc.loc == nil && emptyItemLoc.item == nil
 
 //@ func (*itemLoc).write
+//@   overflow
 //@   props C14 C02 C03 C09 C07 C17
 //@   requires [C05,C18] nolocks: locks == emptyLocks()
+//@   relies [C07] file-size-fits: c.store.size <= 1152921504606846976
 //@   from: C14 item record layout; C02 P3; C09 W1; C07 E3; C17 (value length from the callback, not len(Val))
 //@   requires iloc != nil && c != nil && c.store != nil && c.store.file != nil && c.store.size >= 0
 //@   relies u32-limit: iloc.item != nil ==> 16 + len(iloc.item.Key) + vlenOf(c.store, iloc.item) < 4294967296
@@ -546,8 +552,10 @@ package gkvlite
 //@   ensures err != nil ==> true
 
 //@ func (*Store).writeRoots
+//@   overflow
 //@   props C14 C02 C03 C09 C07 C08
 //@   requires [C05,C18] nolocks: locks == emptyLocks()
+//@   relies [C07] file-size-fits: s.size <= 1152921504606846976
 //@   from: C14 "root records framed by doubled magic markers carrying version, length and the JSON map"; C03 Q1 (one WriteAt, size advanced only on success); C09 W1
 //@   requires s != nil && s.file != nil && s.size >= 0
 //@   relies u32-limit: true
@@ -1608,7 +1616,7 @@ package gkvlite
 //@   requires [C07] open-handle: t.root != nil
 //@   modifies rootNodeLoc.refs, rootNodeLoc.root, rootNodeLoc.next, rootNodeLoc.chainedCollection, rootNodeLoc.chainedRootNodeLoc, node.numNodes, node.numBytes, node.next, itemLoc.loc, itemLoc.item, nodeLoc.loc, nodeLoc.node, nodeLoc.next, mem.ptr, G.freeNodes, G.freeNodeLocs, G.freeRootNodeLocs, AllocStats.CurFreeNodes, AllocStats.FreeNodes, AllocStats.CurFreeNodeLocs, AllocStats.FreeNodeLocs, AllocStats.CurFreeRootNodeLocs, AllocStats.FreeRootNodeLocs, ghost net, ghost tvs, t.store.nodeAllocs, new ploc.Offset, new ploc.Length, new node.numNodes, new node.numBytes, new node.next, new itemLoc.loc, new itemLoc.item, new nodeLoc.loc, new nodeLoc.node, new nodeLoc.next, new Item.Key, new Item.Val, new Item.Priority, new Item.Transient, new mem.byte, ghost io.fails, ghost io.reads, ghost io.valbytes, ghost src, cell.Int, ghost orphans, ghost vis.n, ghost vis.key, ghost vis.item, ghost vis.depth, ghost vis.hasval, ghost vis.stop
 //@   ensures [C07] E1: io.fails >= old(io.fails) && (io.fails > old(io.fails) ==> err != nil)
-//@   ensures [C16] block-shape: err == nil ==> num <= 1024 && leng >= 1
+//@   ensures [C16] block-shape: err == nil ==> num <= 1024 && leng >= 1 && leng <= 9007199254740993
 //@   ensures [C16,C07] blocks-only-for-a-non-empty-collection: err == nil && num >= 1 ==> !isLeaf(old(tvs)[old(t.root.root)])
 //@   ensures [C15] releases-the-reference-Len-took: orphans == old(orphans)
 //@   ensures [C19] key-only-reads-no-value: io.valbytes == old(io.valbytes)
@@ -1750,12 +1758,13 @@ package gkvlite
 //@   ensures 0 <= r && r < n
 
 //@ func RandBm
+//@   overflow
 //@   props C16 C07
 //@   from: code (a Fisher-Yates shuffle in place): no index is ever out of range and the slice handed back is the slice handed in (same length); that the result is a permutation is part of what the bounded harness checks
 //@   modifies content(slice)
 //@   ensures [C16] same-slice: result == slice
 //@   loop 0 modifies content(slice)
-//@   loop 0 invariant -1 <= rangeindex
+//@   loop 0 invariant -1 <= rangeindex && rangeindex < len(rangeslice)
 
 //@ func (*Collection).VisitItemsRandom$1
 //@   props C16 C06
@@ -1788,6 +1797,7 @@ package gkvlite
 //@   ensures [C07] block-table-untouched: deref(blockStore) == old(deref(blockStore)) && deref(i) == old(deref(i))
 
 //@ func (*Collection).VisitItemsRandom
+//@   overflow
 //@   props C16 C07 C15 C05 C04 C09 C18 C06
 //@   from: C16 statement (the items the visitor is presented are items of the collection, with their values), C07 (file errors propagate, no index out of range), C15 (the reference MinItem takes is released), C09/C04 (a visit changes no version). "Exactly once" is decided by the bounded harness.
 //@   requires [C05,C18] nolocks: locks == emptyLocks()
@@ -1811,7 +1821,7 @@ package gkvlite
 //@   loop 1 invariant [C07] no-failure-so-far: io.fails == old(io.fails) && orphans == old(orphans) && vis.n >= old(vis.n)
 //@   loop 1 invariant [C04,C09,C18] no-version-changed: t.root == old(t.root) && rootNodeLoc.refs == old(rootNodeLoc.refs) && rootNodeLoc.root == old(rootNodeLoc.root) && rootNodeLoc.next == old(rootNodeLoc.next) && rootNodeLoc.chainedCollection == old(rootNodeLoc.chainedCollection) && rootNodeLoc.chainedRootNodeLoc == old(rootNodeLoc.chainedRootNodeLoc) && tvs == old(tvs) && ias == old(ias) && (forall m {node.next[m]} :: !fresh(m) ==> node.next[m] == old(node.next[m])) && (forall x {nodeLoc.loc[x]} {nodeLoc.next[x]} :: !fresh(x) ==> nodeLoc.loc[x] == old(nodeLoc.loc[x]) && nodeLoc.next[x] == old(nodeLoc.next[x])) && freeNodes == old(freeNodes) && freeNodeLocs == old(freeNodeLocs) && freeRootNodeLocs == old(freeRootNodeLocs)
 //@   loop 1 invariant [C16,C06] presented-so-far: forall idx {vis.key[idx]} {vis.item[idx]} {vis.hasval[idx]} :: old(vis.n) <= idx && idx < vis.n ==> mem(vis.key[idx], old(tvs)[old(t.root.root)]) && vis.item[idx] == itemAt(vis.key[idx], old(tvs)[old(t.root.root)]) && vis.hasval[idx]
-//@   loop 1 invariant -1 <= rangeindex
+//@   loop 1 invariant -1 <= rangeindex && rangeindex < len(rangeslice)
 
 //@ func (*Collection).AllocStats$1
 //@   props C05
